@@ -111,6 +111,7 @@ class Interp:
         self._loop_ord_cache = {}
         self.path_errors = []
         self._fparts = {}
+        self.sym_ext = {}
         self.begin_path([])
 
     # ------------------------------------------------------------------ path management
@@ -127,6 +128,7 @@ class Interp:
         self._fresh_n = 0
         self.depth = 0
         self.notes = []
+        self.sym_ext = {}         # id(empty python list) -> (list, SymSeq) after `xs.extend(<symbolic sequence>)`
         Obj._n = 0
 
     def explore(self, body, max_paths=20000):
@@ -406,7 +408,14 @@ class Interp:
         raise Unsupported(f"except clause type {handler_type!r}")
 
     # ------------------------------------------------------------------ truth / equality
+    def resolve_seq(self, v):
+        """an (empty) Python list that was extended in place with a symbolic-length sequence stands for that sequence"""
+        if isinstance(v, list) and not v and id(v) in self.sym_ext and self.sym_ext[id(v)][0] is v:
+            return self.sym_ext[id(v)][1]
+        return v
+
     def truth(self, v):
+        v = self.resolve_seq(v)
         if self.cfg.truth_hook is not None:
             r = self.cfg.truth_hook(self, v)
             if r is not NotImplemented:
@@ -841,6 +850,11 @@ class Interp:
         if r[0] == "module":
             return ModRef(r[1])
         if r[0] == "external":
+            # names created dynamically in a repository module (globals()[...] = ...) can be given by the contract
+            modn, _, attr = r[1].rpartition(".")
+            if (modn, attr) in self.cfg.module_consts:
+                v = self.cfg.module_consts[(modn, attr)]
+                return v(self) if callable(v) else v
             return Ext(r[1])
         if r[0] == "const":
             return self.module_const(r[1], r[3], r[2])
@@ -906,6 +920,8 @@ class Interp:
         if isinstance(v, Env):
             if name in v.attrs:
                 return v.attrs[name]
+            if name == "__class__" and isinstance(v.cls, ClassInfo):
+                return ClassRef(v.cls)
             if self.cfg.env_attr is not None:
                 r = self.cfg.env_attr(self, v, name)
                 if r is not NotImplemented:
@@ -944,6 +960,8 @@ class Interp:
                 return self.eval(expr, Frame(None, ci.module))
             raise Unsupported(f"class attribute {name} is a property")
         if isinstance(v, Ext):
+            if name == "__name__":
+                return v.name.split(".")[-1]
             return Ext(f"{v.name}.{name}")
         if isinstance(v, SuperRef):
             mro = v.obj.cls.mro(self.repo) if isinstance(v.obj, Obj) else v.obj.ci.mro(self.repo)
@@ -976,6 +994,8 @@ class Interp:
             if r is not NotImplemented:
                 return r
         if v is None:
+            if name == "__class__":
+                return Ext("NoneType")
             self.raise_("AttributeError", f"'NoneType' object has no attribute '{name}'")
         # methods of builtin values
         return BoundBuiltin(v, name)
@@ -1431,6 +1451,7 @@ class Interp:
         return self.index(v, idx)
 
     def index(self, v, idx):
+        v = self.resolve_seq(v)
         if type(idx).__name__ == "SliceVal":
             return self.slice(v, idx.lo, idx.hi, idx.step)
         if isinstance(v, ByteArr):
@@ -1548,7 +1569,7 @@ class Interp:
         """comprehension over a symbolic-length sequence (single generator, no filter)"""
         from .symcoll import SymMap
         g = n.generators[0]
-        it = self.eval(g.iter, fr)
+        it = self.resolve_seq(self.eval(g.iter, fr))
         if hasattr(it, "as_symseq"):
             it = it.as_symseq(self)
         if not isinstance(it, SymSeq) or len(n.generators) != 1:
@@ -2151,7 +2172,11 @@ class Interp:
         raise PathEnd()
 
     def s_For(self, s, fr):
-        it = self.eval(s.iter, fr)
+        if self._log_only(s.body, fr) and not s.orelse and \
+                not any(isinstance(a, ast.JoinedStr) for st in s.body if isinstance(st, ast.Expr) for a in st.value.args):
+            self.eval(s.iter, fr)      # a loop that only logs: pure-block elision (A-LOG)
+            return None
+        it = self.resolve_seq(self.eval(s.iter, fr))
         if hasattr(it, "as_symseq"):
             it = it.as_symseq(self)
         spec = self.loop_spec(fr, s)
